@@ -225,3 +225,100 @@ def loop_exits_only_when(fn, rule, key, header_pred, allowed, why):
                 line = (blk['events'][-1]['line'] if blk['events'] else (blk.get('term') or {}).get('line'))
                 bad[(frm, to)] = (line, ctx.trace())
     return head, body, bad, on_transfer
+
+
+def eval_expr(c, val):
+    """Evaluate a small expression tree under val(expr) -> int|None for leaves
+    (val is consulted first for every node)."""
+    from .cfg import is_int
+    if c is None:
+        return None
+    v = val(c)
+    if v is not None:
+        return v
+    k = c.get('k')
+    if k == 'int':
+        return c['v']
+    if k == 'un' and c['op'] == '!':
+        x = eval_expr(c['e'], val)
+        return None if x is None else int(not x)
+    if k == 'bin' and c['op'] in ('&&', '||'):
+        a = eval_expr(c['l'], val)
+        if a is None:
+            return None
+        if c['op'] == '&&' and not a:
+            return 0
+        if c['op'] == '||' and a:
+            return 1
+        b = eval_expr(c['r'], val)
+        return None if b is None else int(bool(b))
+    if k == 'bin' and c['op'] in ('==', '!=', '<', '>', '<=', '>=', '&', '|', '+', '-'):
+        a, b = eval_expr(c['l'], val), eval_expr(c['r'], val)
+        if a is None or b is None:
+            return None
+        return int({'==': a == b, '!=': a != b, '<': a < b, '>': a > b, '<=': a <= b, '>=': a >= b,
+                    '&': a & b, '|': a | b, '+': a + b, '-': a - b}[c['op']])
+    if k == 'cond':
+        t = eval_expr(c['c'], val)
+        if t is None:
+            return None
+        return eval_expr(c['a'] if t else c['b'], val)
+    if k == 'call' and c.get('callee') == '__builtin_expect':
+        return eval_expr(c['args'][0], val)
+    return None
+
+
+def symbolic_walk(fn, start, val, stop, max_steps=400):
+    """Follow the single path from block `start` that the assignment `val`
+    (expr -> int|None for leaves) selects.  Local assignments of evaluable values
+    are remembered.  stop(block, event|None) -> label ends the walk.  Returns
+    (list of events seen, stop label).  Raises AnalysisBroken when a branch
+    condition cannot be evaluated."""
+    from .cfg import written_lvalues, is_ref, estr
+    env = {}
+
+    def v2(e):
+        r = val(e)
+        if r is not None:
+            return r
+        if is_ref(e) and e.get('id') in env:
+            return env[e['id']]
+        return None
+    b = start
+    seen = []
+    for _ in range(max_steps):
+        blk = fn.blocks[b]
+        lab = stop(blk, None)
+        if lab:
+            return seen, lab
+        for ev in blk['events']:
+            lab = stop(blk, ev)
+            if lab:
+                return seen, lab
+            seen.append(ev)
+            for lhs, how, rhs in written_lvalues(ev):
+                if is_ref(lhs) and lhs.get('kind') == 'local' and how in ('=', 'decl') and rhs is not None:
+                    x = eval_expr(rhs, v2)
+                    if x is not None:
+                        env[lhs['id']] = x
+                    else:
+                        env.pop(lhs['id'], None)
+            if ev['ev'] == 'return':
+                return seen, 'return'
+        t = blk.get('term')
+        succs = blk['succs']
+        if t and t.get('cond') is not None and len(succs) == 2:
+            x = eval_expr(t['cond'], v2)
+            if x is None:
+                raise AnalysisBroken('%s: cannot evaluate branch condition %s at line %s' % (
+                    fn.name, estr(t['cond']), t.get('line')))
+            b = succs[0] if x else succs[1]
+        elif len(succs) == 1:
+            b = succs[0]
+        elif not succs:
+            return seen, 'end'
+        else:
+            raise AnalysisBroken('%s: unexpected block shape at block %d' % (fn.name, b))
+        if b < 0:
+            return seen, 'pruned'
+    raise AnalysisBroken('%s: symbolic walk did not terminate' % fn.name)
